@@ -820,7 +820,8 @@ impl JobServerHandle {
             if got_token {
                 return Ok(());
             }
-            backoff *= 2;
+            // Only min(1s, backoff) is ever used; don't let the doubling overflow.
+            backoff = cmp::min(backoff * 2, Duration::from_secs(1));
             {
                 let has_token = {
                     let state = self.state.borrow();
